@@ -23,6 +23,12 @@ class OutOfReach(Exception):
     """The function uses a construct outside the supported subset (DESIGN 2.9)."""
 
 
+class PartialReach(OutOfReach):
+    """Out of reach on THIS path only (e.g. an un-annotated loop of symbolic trip count, unrolled for its first iterations): the
+    function is still reported as out of reach - nothing is proved - but the other paths are explored for refutations, which
+    are sound whatever was left unexplored."""
+
+
 class FrameEscape(OutOfReach):
     """The code reads or writes state that the contract's frame does not contain: an attribute that is not a declared field of the
     object, a memoising decorator, a module-level object. Reported as the frame obligation of the function (state outside the
@@ -203,6 +209,12 @@ class SList:
 
         if name == "append":
             new = slist_append(I, SList(self.length, self.elem), args[0])
+            self.length, self.elem = new.length, new.elem
+            return None
+        if name == "sort" and not args and set(kw) <= {"key", "reverse"}:
+            from .builtins import b_sorted
+
+            new = b_sorted(I, [SList(self.length, self.elem)], kw)
             self.length, self.elem = new.length, new.elem
             return None
         raise OutOfReach(f"list.{name} on a list of symbolic length")
